@@ -114,3 +114,10 @@ for _be in ("mem", "redis", "rabbit"):
         stubs=[] if _be == "mem" else [f"fake {_be} server"]))
 
 ASSUMPTIONS = ["operation selectors are discrete: the solver enumerates the well-behaved histories inside the bound"]
+
+# scenarios of other properties that also decide a clause of this one ("dead-lettered ... in exactly one place"; a message the
+# runner took is handed back or settled, never left with a consumer that is gone)
+from engine.harness import borrowed  # noqa: E402
+HARNESSES.append(borrowed("c12", "H12-consume-rabbit", "H01-rabbit-expired"))
+HARNESSES.append(borrowed("c12", "H12-consume-redis", "H01-redis-expired"))
+HARNESSES.append(borrowed("c03", "H03-rabbit-stop", "H01-rabbit-worker-stop"))
